@@ -8,7 +8,7 @@ CFG = dict(
                  "a quarter of the histories issue the RIB-side operations from up to three OS threads with delay injection while the observer delivers/flushes; schedules are sampled, not enumerated"],
     floor=dict(evaluations=100, nontrivial=20,
                counters={"checks": 100, "frames-decoded": 500, "events-delivered": 500, "routes-compared": 300,
-                         "op:announce": 500, "op:withdraw": 300, "branch:addpath": 20, "branch:plain": 20, "histories-concurrent": 30, "concurrent-bursts": 100, "sched-point-hits": 500}),
+                         "op:announce": 500, "op:withdraw": 300, "branch:addpath": 20, "branch:plain": 20, "histories-concurrent": 30, "concurrent-bursts": 100, "sched-point-hits": 500, "late-joins": 10, "late-joins-overlapping-a-burst": 3}),
     quick=[e2("hist", "event::verif::c01::run", 4, 30)],
     thorough=[e2("hist", "event::verif::c01::run", 16, 200)],
 )
